@@ -1,6 +1,7 @@
 package main
 
 import (
+	"sync/atomic"
 	"encoding/json"
 	"flag"
 	"fmt"
@@ -111,6 +112,16 @@ func defaults(b Bounds) Bounds {
 	return b
 }
 
+// a guard that ends the run early must not turn an already reported violation into "inconclusive"
+var violationReported atomic.Bool
+
+func guardExit() int {
+	if violationReported.Load() {
+		return 1
+	}
+	return 3
+}
+
 func runHarness(spec *HarnessSpec, tier string, budget time.Duration) (*harnessResult, error) {
 	t0 := time.Now()
 	prog, pkgs, mainPkg, err := loadProgram(spec, verifRoot)
@@ -154,9 +165,29 @@ func runHarness(spec *HarnessSpec, tier string, budget time.Duration) (*harnessR
 	}
 	// watchdog: a single symbolic step that never returns (e.g. an element-wise operation on a huge
 	// symbolic buffer) must not hang the check: give up as inconclusive
+	// memory guard: a symbolic step that materialises a huge structure must not take the machine down
+	memStop := make(chan struct{})
+	go func() {
+		tick := time.NewTicker(2 * time.Second)
+		defer tick.Stop()
+		for {
+			select {
+			case <-memStop:
+				return
+			case <-tick.C:
+				var ms runtime.MemStats
+				runtime.ReadMemStats(&ms)
+				if ms.HeapAlloc > 28<<30 {
+					fmt.Printf("   INCONCLUSIVE memory guard: %s needs more than 28 GiB of engine memory (a symbolic structure out of the engine's reach)\n", spec.Name)
+					os.Exit(guardExit())
+				}
+			}
+		}
+	}()
+	defer close(memStop)
 	watchdog := time.AfterFunc(budget+5*time.Minute, func() {
 		fmt.Printf("   INCONCLUSIVE watchdog: %s still running %v after its budget ended (a symbolic step does not terminate)\n", spec.Name, 5*time.Minute)
-		os.Exit(3)
+		os.Exit(guardExit())
 	})
 	e.explore(entry, nw, t0.Add(budget))
 	watchdog.Stop()
@@ -386,6 +417,7 @@ func cmdCheck(args []string) int {
 				nViol++
 				fmt.Printf("   violated: %q at %s\n", v.Label, v.Site)
 				fmt.Printf("VIOLATION property=%s replay=%s\n", id, dir)
+				violationReported.Store(true)
 				exit = max(exit, 1)
 				if exit == 3 {
 					exit = 1
